@@ -442,8 +442,19 @@ def discharge(task: Task, timeout_ms=20000, keep_smt=0):
     base = list(ctx.assumptions) + list(ctx.axioms)
     if getattr(task.c, 'heavy', False):
         _cli_first(task, timeout_ms)
+    lost = 0
     for o in ctx.obls:
         if o.result == 'unsat' and o.backend == 'z3-4.8.12-cli':
+            continue
+        if lost >= 8 and o.kind != 'cover':
+            # the proof of this function is already lost (8 obligations refuted or left open - never the case on a tree
+            # where everything discharges): the remaining obligations get one short attempt each, so that the report
+            # (violation with replay, or undecided) arrives in minutes rather than after every solver's full budget
+            hyps = base + list(o.hyps)
+            if getattr(o, 'qf_only', False):
+                hyps = [h for h in hyps if not has_quantifier(h)]
+            res, secs, backend, model, smt2 = check(hyps, o.goal, 2000, expect=o.expect, use_cvc5=False, tactics=False)
+            o.result, o.time, o.backend, o.model = res, secs, backend + ' (short budget: proof already lost)', model
             continue
         if o.kind == 'cover':
             # satisfiability check: quantified hypotheses are dropped (a weaker set); 'sat' is then
@@ -490,6 +501,8 @@ def discharge(task: Task, timeout_ms=20000, keep_smt=0):
             res, secs, backend, model, smt2 = check(hyps, o.goal, timeout_ms, expect=o.expect)
         o.result, o.time, o.backend = res, secs, backend
         o.model = model
+        if o.kind != 'cover' and res != o.expect:
+            lost += 1
     return ctx.obls
 
 
@@ -526,7 +539,7 @@ def verify_instance(key, label, timeout_ms=20000, which=None, seed=0, crosscheck
         if crosscheck:
             from .crosscheck import cross_check
             try:
-                cc = cross_check(lambda: Task(c, inst, label), seed)
+                cc = cross_check(lambda: Task(c, inst, label), seed, want=3 if timeout_ms < 100000 else 12)   # thorough tier: 12
             except Exception as e:  # noqa
                 cc = {'witnesses': 0, 'checked': 0, 'mismatches': [], 'clause_failures': [],
                       'skipped': f'{type(e).__name__}: {e}'}
@@ -535,6 +548,7 @@ def verify_instance(key, label, timeout_ms=20000, which=None, seed=0, crosscheck
                 if o.kind == 'cover' and o.result == 'unknown' and cc['witnesses'] > 0:
                     o.result, o.backend = 'sat', 'native-witness'
         from .replay import make_replay
+        searches, found_input = 0, False
         for o in task.ctx.obls:
             d = {'name': f'{task.name}::{o.name}', 'short': o.name, 'kind': o.kind, 'role': o.role,
                  'result': o.result, 'expect': o.expect, 'ok': o.ok, 'time': round(o.time, 4), 'backend': o.backend,
@@ -552,8 +566,14 @@ def verify_instance(key, label, timeout_ms=20000, which=None, seed=0, crosscheck
                         hit = native_clause_violated(task, ns, nargs, o.kind, o.note or 'True')
                     except Exception:  # noqa
                         hit = False
-                    if not hit and o.kind in ('post', 'raises', 'frame', 'nodiv0', 'index', 'domain', 'inv-preserve',
-                                              'inv-entry', 'variant', 'lemma'):
+                    # the seeded search is expensive: at most three per instance, and none once a failing input
+                    # has been found for this instance (one replayed input per function is what the report needs)
+                    if hit:
+                        found_input = True
+                    if not hit and not found_input and searches < 3 and o.kind in (
+                            'post', 'raises', 'frame', 'nodiv0', 'index', 'domain', 'inv-preserve', 'inv-entry', 'variant',
+                            'lemma'):
+                        searches += 1
                         kind = o.kind if o.kind in ('post', 'raises', 'frame', 'nodiv0', 'index', 'domain') else None
                         cands = [(kind, o.note or 'True')] if kind else \
                             [('post', cl.src) for cl in c.ensures] + [('raises', '')]
@@ -566,6 +586,7 @@ def verify_instance(key, label, timeout_ms=20000, which=None, seed=0, crosscheck
                                 fo.name, fo.kind, fo.note = o.name, kd, src
                                 d['replay_src'] = make_replay(task, fo, None, concrete_src=srcs)
                                 d['found_by'] = 'seeded native search after the counter-model did not reproduce'
+                                found_input = True
                                 break
                 except Exception as e:  # noqa
                     d['replay_error'] = f'{type(e).__name__}: {e}'
